@@ -490,10 +490,17 @@ def run_single(cid, tier, seed, out=sys.stdout, property_id=None):
     replay_paths = []
     reported = {}
     if violations:
-        pool3 = _pool(1, check)
+        holder = {'pool': _pool(1, check)}
         try:
             def execute(scen):
-                return pool3.submit(_exec_scenarios, cid, tier, [scen]).result(timeout=check.run_timeout * 2)[0]
+                # a candidate may hang the (possibly broken) system under test: bound it and start over with a fresh worker
+                fut = holder['pool'].submit(_exec_scenarios, cid, tier, [scen])
+                try:
+                    return fut.result(timeout=min(check.run_timeout, 90))[0]
+                except Exception:
+                    _kill_pool(holder['pool'])
+                    holder['pool'] = _pool(1, check)
+                    return result(HARNESS_TIMEOUT, invariant='minimiser-candidate-timeout')
             for idx in violations:
                 scen, res = results[idx]
                 key = (res['invariant'], res.get('signature'))
@@ -519,7 +526,7 @@ def run_single(cid, tier, seed, out=sys.stdout, property_id=None):
                 print('  expected=%s' % (json.dumps(res_small.get('expected'), default=_default)[:600],), file=out)
                 print('  actual=%s' % (json.dumps(res_small.get('actual'), default=_default)[:600],), file=out)
         finally:
-            pool3.shutdown()
+            _kill_pool(holder['pool'])
 
     for entry in findings.get('findings', []):
         if entry['property'] == property_id and (known_hits.get(entry['signature'])
